@@ -125,7 +125,7 @@ def handle : List String → String
       if st.clientSide then
         (if vals.any hasSpecial then "C08/inf-nan" else if vals.any hasNul then "C08/nul"
          else if vals.any (fun v => floatLitBits v != "-") then "C08/float-literal-inexact" else "-")
-      else (if vals.any bigInt then "C08/qmark-int-beyond-uint64" else "-")
+      else "-"
     s!"impl={encFmt impl}\tspec={encFmt spec}\tbind={encBool bind}\tfinding={finding}\tfbits={encList (vals.map floatLitBits)}"
   | ["qmark", skel, n] =>
     match decQ 200 skel.toList, n.toNat? with
